@@ -72,6 +72,12 @@ def alphabet(table, ids, vias=VIAS):
     for a in leased + [UNLEASED]:
         ev.append(("rel", a))
         ev.append(("relapi", a))
+    # a real node's release_address() does not set the reserved byte: its frame carries whatever the node's frame
+    # buffer last held - e.g. the id of another, still leased node whose request it relayed
+    for a in leased:
+        others = sorted(k for k, x in table if x != a)
+        if others:
+            ev.append(("relr", a, others[0]))
     for fmt in ("json", "bin"):
         for target in ("same", "fresh"):
             ev.append(("save", fmt, target))
@@ -165,7 +171,7 @@ def apply_event(st, ev, tmpdir, judge=True, history=None):
         free = D.free_slots(before, nid, via)
         if not resp:
             if free:
-                released = [a for a in free if history is not None and any(e[0] in ("rel", "relapi") and e[1] == a for e in history)]
+                released = [a for a in free if history is not None and any(e[0] in ("rel", "relapi", "relr") and e[1] == a for e in history)]
                 v("%s:%s" % ("released-address-not-reusable" if released else "no-response-though-slot-free", vn),
                   "request of id %d via 0o%o got no reply although %s %s free (table %s)"
                   % (nid, via, ",".join(oct(a) for a in free), "is" if len(free) == 1 else "are", fmt_table(before)))
@@ -180,18 +186,18 @@ def apply_event(st, ev, tmpdir, judge=True, history=None):
             slots = D.child_slots(via, 5)
             skipped = any(x in {y for k, y in before if k != nid} for x in slots)
             only = len(D.free_slots(before, nid, via, 5)) == 1
-            if only and history is not None and any(e[0] in ("rel", "relapi") and e[1] == a for e in history):
+            if only and history is not None and any(e[0] in ("rel", "relapi", "relr") and e[1] == a for e in history):
                 out = "req:%s:%s:released-address-reissued-as-only-free-slot" % (vn, cls)
             elif had:
                 out = "req:%s:re-request:%s" % (vn, "same-address" if had[0] == a else ("moved-within-parent" if R.parent(had[0]) == R.parent(a) else "moved-to-other-parent"))
             else:
                 out = "req:%s:new-id:%s" % (vn, "granted-after-collision-skip" if skipped else "granted")
-    elif kind in ("rel", "relapi"):
+    elif kind in ("rel", "relapi", "relr"):
         a = ev[1]
         was = [k for k, x in before if x == a]
-        if kind == "rel":
+        if kind in ("rel", "relr"):
             hop = R.next_hop(0, a)
-            frame = NW.pack_frame(a, 0, step & 0xFFFF, D.ADDR_RELEASE, 0, b"")
+            frame = NW.pack_frame(a, 0, step & 0xFFFF, D.ADDR_RELEASE, ev[2] if kind == "relr" else 0, b"")
             if not H.inject(w, g, R.pipe_address(0, R.own_digit(hop)), frame):
                 raise HarnessError("release frame did not reach the master's radio")
             try:
@@ -217,7 +223,8 @@ def apply_event(st, ev, tmpdir, judge=True, history=None):
         after = table_of(m)
         if sorted(after) != sorted((k, x) for k, x in before if x != a):
             shape = "still-leased" if any(x == a for _, x in after) else "other-lease-touched"
-            v("release:%s:%s" % (shape, "frame" if kind == "rel" else "api"), "release of 0o%o: table %s -> %s" % (a, fmt_table(before), fmt_table(after)))
+            v("release:%s:%s" % (shape, {"rel": "frame", "relr": "frame-with-stale-reserved", "relapi": "api"}[kind]), "release of 0o%o%s: table %s -> %s" % (
+                a, " (reserved byte %d)" % ev[2] if kind == "relr" else "", fmt_table(before), fmt_table(after)))
         if any(p.src is r and not p.is_ack for p in w.airlog):
             v("release:transmits", "master transmitted in reaction to a release")
         out = "%s:%s" % (kind, "freed" if was else "not-leased-noop")
